@@ -5,6 +5,8 @@ type nat =
 | O
 | S of nat
 
+val option_map : ('a1 -> 'a2) -> 'a1 option -> 'a2 option
+
 val snd : ('a1 * 'a2) -> 'a2
 
 val length : 'a1 list -> nat
@@ -124,6 +126,10 @@ module Coq_Pos :
 
   val of_succ_nat : nat -> positive
 
+  val of_uint_acc : uint -> positive -> positive
+
+  val of_uint : uint -> n
+
   val to_little_uint : positive -> uint
 
   val to_uint : positive -> uint
@@ -218,6 +224,10 @@ module Z :
 
   val of_N : n -> z
 
+  val of_uint : uint -> z
+
+  val of_int : signed_int -> z
+
   val to_int : z -> signed_int
  end
 
@@ -253,16 +263,24 @@ type 'a outcome =
 | Ret of 'a
 | Raise of exn
 
+val uint_of_char : char -> uint option -> uint option
+
 module NilEmpty :
  sig
   val string_of_uint : uint -> char list
+
+  val uint_of_string : char list -> uint option
  end
 
 module NilZero :
  sig
   val string_of_uint : uint -> char list
 
+  val uint_of_string : char list -> uint option
+
   val string_of_int : signed_int -> char list
+
+  val int_of_string : char list -> signed_int option
  end
 
 val type_order : (char list * z) list
@@ -863,6 +881,8 @@ val row_of : char list list -> char list -> nat option
 
 val assoc_stmt : char list -> (char list * sstmt) list -> sstmt option
 
+val offset_text : z -> char list
+
 val code_index : char list -> (z * char list) option
 
 val code_word : char list -> ctok
@@ -876,6 +896,42 @@ val program_of_symbols :
   symbol list -> char list list -> (char list list * sprogram) option
 
 val program_of_script : char list -> (char list list * sprogram) option
+
+val binop_eqb : binop -> binop -> bool
+
+val cmpop_eqb : cmpop -> cmpop -> bool
+
+val sexpr_eqb : sexpr -> sexpr -> bool
+
+val named_stmt_eqb : (char list * sstmt) -> (char list * sstmt) -> bool
+
+val code_agrees : (char list -> nat option) -> char list -> bool
+
+val program_agrees : symbol list -> char list list -> bool
+
+val program_of_script_checked :
+  char list -> (char list list * sprogram) option
+
+val is_series : kind -> bool
+
+type pclass =
+| PNone
+| PDig
+| PWord
+
+val digdot : char -> bool
+
+val str_all : (char -> bool) -> char list -> bool
+
+val kw_text : xtok -> char list option
+
+val known_fun : char list -> bool
+
+val tok_class : tmatch -> pclass option
+
+val tight : pclass -> item list -> bool
+
+val tight_statement : char list -> bool
 
 val splitlines_keep : char list -> char list -> char list list
 
